@@ -880,11 +880,12 @@ func main() {
 		}
 		seed, _ := strconv.ParseUint(os.Args[4], 10, 64)
 		r := &runner{w: w, key: seed * 0x1000003}
+		base, _ := strconv.Atoi(os.Getenv("VERIF_IDX_BASE")) // replay of a single case: its original index (seeds the concretisation)
 		one := func(i int, limit time.Duration, confirm bool) {
 			if mode == "rt" {
-				r.doRT(cases[i], i, limit, confirm)
+				r.doRT(cases[i], base+i, limit, confirm)
 			} else {
-				r.doDoc(cases[i], i, limit, confirm)
+				r.doDoc(cases[i], base+i, limit, confirm)
 			}
 		}
 		onPanic := func(i int, v interface{}, stack string) {
